@@ -90,6 +90,14 @@ CLAIMED = {
         note="trusted: decoder transcriptions in vlib/xducer.py; the text/clean seeds in vlib/shdims.py (cword is an integer, bind -v output is not user text); syn's parse; the syntactic type inference (unknown types are followed structurally)",
         design="5/C07",
     ),
+    "C16": dict(
+        technique="static analysis: symbolic encoder/Graphviz-lexer transducer composition for all strings, raw-text taint analysis of every hole the two dumpers write, node-identifier provenance (array base, same-automaton), per-arm label/edge presence, brace balance",
+        text="Decides on /repo's current source, for the --dfa and --regex dumpers: the label encoder keeps every string inside its quotes and readable back, for ALL strings; literal, description, command and nonterminal text reaches the file only through it, "
+        "with the quoting context of each hole matching the encoder used; every node identifier of the dfa dump is prefix + state + the selected shell's array base, prefix and state taken from the same automaton; --dfa receives the selected shell's ARRAY_START; "
+        "every arm of the regex dumper labels its node before any return, every transition arm of the dfa dumper writes an edge, Cat/Or children are all visited, braces balance. It does NOT decide value-level facts (one node per state, one edge per transition) nor anything about Graphviz beyond its string lexer.",
+        note="trusted: the Graphviz quoted-string transcription in vlib/xducer.py; syn's parse; provenance terms of vlib/ast.py; tables/tree.toml (the Star drop)",
+        design="5/C16",
+    ),
     "C02": dict(
         technique="static analysis: syn syntax-tree rules (traversal completeness, rebuild-preserves, translation table, field-flow provenance, pass order)",
         text="Decides the shape-visible necessary conditions of C02 on /repo's current source (every pass descends into every child; rebuilt nodes keep their labels; "
